@@ -52,6 +52,14 @@ Theorem C15_array_invariant : forall p cur idx cv nv,
 Proof. exact prop_write_wf. Qed.
 Print Assumptions C15_array_invariant.
 
+(* and of the objectList updates of Application.add_object / delete_object (ArrayOf.append, index + __delitem__):
+   the length slot stays the number of elements, which grows / shrinks by exactly one *)
+Theorem C15_object_list_invariant :
+  (forall v x v', arr_append v x = Ok v' -> wf_val v' /\ elems v' = elems v ++ [x]) /\
+  (forall v x v', wf_val v -> arr_remove v x = Ok v' -> wf_val v' /\ S (length (elems v')) = length (elems v)).
+Proof. exact object_list_invariant. Qed.
+Print Assumptions C15_object_list_invariant.
+
 (* "1..n -> the element" at full strength (always a value) is false of the code: growing an array of a
    constructed element type without prototype appends instances that do not encode (known finding
    C15-grow-constructed-array).  C15_array_index is the true restriction: the answer is enc_elem of the element. *)
@@ -151,3 +159,8 @@ Example C15_ex_rpm :
 Proof. vm_compute. reflexivity. Qed.
 Example C15_ex_wf : wf_val (VArr 2 [EAtom 2 7; EAtom 2 8]).
 Proof. reflexivity. Qed.
+Example C15_ex_life_cycle :
+  arr_append (VArr 1 [EAtom 12 5]) (EAtom 12 6) = Ok (VArr 2 [EAtom 12 5; EAtom 12 6]) /\
+  arr_remove (VArr 2 [EAtom 12 5; EAtom 12 6]) (EAtom 12 5) = Ok (VArr 1 [EAtom 12 6]) /\
+  arr_remove (VArr 1 [EAtom 12 6]) (EAtom 12 5) = Err ValueErr.
+Proof. repeat split; vm_compute; reflexivity. Qed.
